@@ -461,6 +461,10 @@ func (h kvHandler) handleKvDeleteRange(req *kvrpcpb.DeleteRangeRequest) *kvrpcpb
 		panic("KvDeleteRange: key not in region")
 	}
 	var resp kvrpcpb.DeleteRangeResponse
+	if req.GetNotifyOnly() {
+		// notify-only: the request is replicated but nothing is deleted
+		return &resp
+	}
 	err := h.mvccStore.DeleteRange(req.StartKey, req.EndKey)
 	if err != nil {
 		resp.Error = err.Error()
